@@ -37,6 +37,9 @@ type simLink struct {
 	latency time.Duration
 	ready   []int64 // virtual time at which queue[i] may be received
 	recv    [][]byte
+	// sendDelay > 0: a slow replica - the master's stream.Send takes this long per
+	// message (flow control), so the stream's channel on the master fills up
+	sendDelay time.Duration
 }
 
 type simAddr string
@@ -56,6 +59,12 @@ func (s *simStream) Send(m *pb.GetWALStreamResponse) error {
 	simrt.Yield("stream-send")
 	if s.link.down {
 		return errors.New("transport is closing")
+	}
+	if d := s.link.sendDelay; d > 0 {
+		simrt.Sleep(d)
+		if s.link.down {
+			return errors.New("transport is closing")
+		}
 	}
 	s.link.queue = append(s.link.queue, m.TransactionGroup)
 	s.link.ready = append(s.link.ready, simrt.NowNanos()+int64(s.link.latency))
@@ -80,6 +89,8 @@ type simClient struct {
 	port    *int
 	latency time.Duration
 	refuse  func() bool
+	// slowFirst > 0: the first connection of this replica is slow (see simLink.sendDelay)
+	slowFirst time.Duration
 }
 
 func (c *simClient) Connect(ctx context.Context) error {
@@ -89,6 +100,9 @@ func (c *simClient) Connect(ctx context.Context) error {
 	}
 	*c.port++
 	l := &simLink{id: len(c.links), addr: fmt.Sprintf("10.0.0.%s:%d", c.name, *c.port), latency: c.latency}
+	if len(c.links) == 0 {
+		l.sendDelay = c.slowFirst
+	}
 	c.links = append(c.links, l)
 	c.cur = l
 	sctx := peer.NewContext(context.Background(), &peer.Peer{Addr: simAddr(l.addr)})
@@ -378,6 +392,7 @@ func c26Engine() *Engine {
 		w.Knobs["defaultSenderChannelSize"] = []int{500, 8, 2}[r.Intn(3)]
 		nrep := 2 + r.Intn(3)
 		burst := r.Pct(60)
+		slowReplicas := r.Pct(35)
 		if burst {
 			w.Sim.PreemptPct = []int{10, 30, 60}[r.Intn(3)]
 		}
@@ -418,6 +433,12 @@ func c26Engine() *Engine {
 			for i := 0; i < nrep; i++ {
 				i := i
 				cl := &simClient{name: fmt.Sprint(20 + i), server: server, port: &port, latency: time.Duration(r.Intn(5)) * time.Millisecond}
+				if slowReplicas && r.Pct(50) {
+					// a replica that does not keep up: its stream's channel on the master
+					// fills, the sender blocks on it - until it disconnects (below)
+					cl.slowFirst = []time.Duration{100 * time.Millisecond, time.Second, 5 * time.Second}[r.Intn(3)]
+					res.Count("slow-replicas", 1)
+				}
 				clients[i] = cl
 				recv := replication.NewReceiver(cl, recReplayer{&gots[i]})
 				rt := replication.NewRetryer(recv.Run, time.Duration(5+r.Intn(200))*time.Millisecond, 2)
@@ -472,12 +493,31 @@ func c26Engine() *Engine {
 					res.Count("links-cut", 1)
 				}
 			}
+			// a stalled replica that stays connected blocks the master by design; the
+			// property is about disconnects, so every slow connection is cut in the end
+			if slowReplicas {
+				simrt.Sleep(400 * time.Millisecond) // every replica has connected by now (start delays are below 300 ms)
+			}
+			for _, cl := range clients {
+				for _, l := range cl.links {
+					if l.sendDelay > 0 && !l.down {
+						simrt.Sleep(time.Duration(1+r.Intn(200)) * time.Millisecond)
+						l.down = true
+						res.Count("slow-links-cut", 1)
+					}
+				}
+			}
 			// writers must finish within a bounded virtual time after the last cut
 			for t := 0; t < 600 && wg.Count() > 0; t++ {
 				simrt.Sleep(100 * time.Millisecond)
 			}
 			stuck = wg.Count()
 			simrt.Sleep(3 * time.Second)
+			if slowReplicas {
+				// the sender may still sit in a slow stream's last Send and have a
+				// backlog behind it: let everything drain before connections are judged
+				simrt.Sleep(12 * time.Second)
+			}
 			for i, cl := range clients {
 				for _, l := range cl.links {
 					conns = append(conns, &conn{rep: i, link: l, cut: l.down})
@@ -529,7 +569,7 @@ func c26Engine() *Engine {
 				for _, e := range spy.sent {
 					all = append(all, e.tgid-spy.sent[0].tgid)
 				}
-				fmt.Printf("  C26 conn %s sent(rel)=%v got=%v exp=%v\n", c.link.addr, all, got, exp)
+				fmt.Printf("  C26 conn %s slow=%v down=%v queued=%d sent(rel)=%v got=%v exp=%v\n", c.link.addr, c.link.sendDelay, c.link.down, len(c.link.queue), all, got, exp)
 			}
 			for i := 1; i < len(got); i++ {
 				if got[i] <= got[i-1] {
